@@ -9,7 +9,7 @@ read-write lock through which port clones share their connection list.  No bound
 the length of the history.  Operations are atomic in this model (the lock-free internals of the task set are
 covered by the repository's loom tests, not by these theorems).
 -/
-import NexoVerif.Lemmas.BcastArm
+import NexoVerif.Lemmas.BcastLive
 import NexoVerif.Lemmas.BcastLock
 import NexoVerif.Extracted
 
@@ -78,6 +78,21 @@ theorem pending_broadcast_is_woken_by_any_sub_task (subs : List Nat) (consume : 
   obtain ⟨a, b, c⟩ := loopPoll_pending_armed subs consume s pending h
   obtain ⟨d, e, _⟩ := armed_wake_notifies s' i a b c
   exact ⟨d, e, fun j => scheduled_wake_is_remembered _ i j e⟩
+
+/-- **broadcast_completes_once_all_have_replied** — "it returns … however the repliers' completions and wake-ups
+interleave": in every reachable state with a `BroadcastFuture` in flight, if each sub-future whose reply slot is still
+empty has its reply available and has been woken since (its task is scheduled), the next poll returns `Ready` — no
+matter in which order the replies arrived, how many spurious or stale wake-ups happened, or how often the broadcast
+was polled in between.  And a broadcast whose accepting repliers all have their reply ready when it is first polled
+completes at that first poll. -/
+theorem broadcast_completes_once_all_have_replied {s : St} (h : Reach s) :
+    (∀ subs pending consume, s.fut = some (.multi subs pending false consume) →
+      (∀ i c, subs[i]? = some c → (s.outputs[i]?).join = none → i ∈ s.stack ∧ SlotReady s c) →
+      ∃ vals, (poll s).2 = .ready vals) ∧
+    (∀ arg consume, s.fut = some (.lazy arg consume) → (∀ c ∈ accepted s.senders arg, SlotReady s c) →
+      ∃ vals, (poll s).2 = .ready vals) :=
+  ⟨fun subs pending consume hf hall => completes_when_all_replied s (reach_wf h) subs pending consume hf hall,
+   fun arg consume hf hall => first_poll_completes_when_all_ready s arg consume hf hall⟩
 
 /-- **every_reachable_state_is_well_formed** — the bookkeeping invariant behind the theorems above, for every
 history: the pending count equals the number of empty reply slots among the sub-futures, every filled slot holds a
